@@ -82,6 +82,28 @@ class Ctx:
     def disagree(self, stream: str, index: int, what: str, detail: dict) -> None:
         self.disagreements.append({'stream': stream, 'index': index, 'seed': self.seed, 'what': what, 'detail': detail})
 
+    def in_domain(self, stream: str, index: int, esx, detail: dict, cmd: str = 'valid', allow=()) -> bool:
+        """Is the (encoded, real) operator inside the domain the closed theorems quantify over?  The driver decides
+        `WTExpr … listLeafOK` (FuraxModel/Valid.lean; `Valid.validb_iff`: sound AND complete, up to the invertibility of
+        the operands of lazy inverses).  An operator the library built that lies outside it means the theorems say
+        nothing about that operator: a broken tie, reported as a disagreement with the failing clause."""
+        rep = self.model.ask([cmd, esx])
+        if rep[0] == 'unsupported':
+            self.count(f'{cmd}:unsupported')
+            return True
+        if rep[0] != 'ok':
+            self.disagree(stream, index, f'{cmd}: model replied {str(rep)[:120]}', detail)
+            return False
+        if rep[1] == 'T':
+            self.count(f'{cmd}:in-domain')
+            return True
+        reason = rep[2] if len(rep) > 2 else '?'
+        self.count(f'{cmd}:outside:{reason}')
+        if not any(reason.startswith(a) for a in allow):
+            self.disagree(stream, index, f'the library built an operator outside the domain of the closed theorems '
+                          f'({cmd}: {reason})', detail)
+        return False
+
     def dump(self) -> dict:
         return {'evaluations': self.evaluations, 'nontrivial': sorted(self.nontrivial),
                 'samples': self.samples, 'disagreements': self.disagreements, 'failures': self.failures,
